@@ -101,7 +101,9 @@ Record rcase := RC {
                                                  here), the handler set carrying the scripts installed for this case *)
   rc_parts : option (bytes * bytes * bytes);  (* (type, resource, method) the subject was built from; None = malformed on purpose *)
   rc_msg : msg;                               (* subject, reply subject, payload as sent (decoded form = the generator's fields) *)
-  rc_conc : bool;                             (* concurrent-load case: only the messages on the reply subject were collected *)
+  rc_conc : bool;                             (* concurrent case (load round / overlapping pair): of the published messages only
+                                                 those on the reply subject were collected; the handler observations are
+                                                 those recorded under the request's own resource name *)
   g_pubs : list pubmsg;                       (* everything the service published for this request, in order *)
   g_log : list lentry;                        (* what the invoked handlers recorded *)
   g_done : bool;                              (* the request-done note arrived *)
@@ -123,8 +125,8 @@ Definition check_case (c : rcase) : list N :=
   let processed := negb (is_nil (ms_reply (rc_msg c))) && isSome sp in
   (if rc_conc c
    then (if list_eqb pub_eqb (on_subject (ms_reply (rc_msg c)) (pubs s)) (g_pubs c) then [] else [1])
-   else (if list_eqb pub_eqb (pubs s) (g_pubs c) then [] else [1]) ++
-        (if list_eqb lentry_eqb (log s) (g_log c) then [] else [2])) ++
+   else (if list_eqb pub_eqb (pubs s) (g_pubs c) then [] else [1])) ++
+  (if list_eqb lentry_eqb (log s) (g_log c) then [] else [2]) ++
   (if Bool.eqb processed (g_done c) then [] else [3]) ++
   (if parts_eqb sp (rc_parts c) then [] else [4]).
 
